@@ -126,13 +126,26 @@ def run(ctx):
              "internals otherwise; 128 cells; both-whole cells are compared "
              "with _is_sid1_from only", floor=128)
     f_rk = ctx.anchor("GFA2 edge _refkey_for_s", E.find_method("_refkey_for_s"))
+    last7 = Abs(repo.cls("LastPos"), label="7$", value=7)
     rk_table = {}
     for snum, st1, st2, o1, o2 in itertools.product(
             [1, 2], spec.SUBSTRING_TYPES, spec.SUBSTRING_TYPES, spec.ORIENTS,
             spec.ORIENTS):
         ctx.instance(R)
         se = Abs(E, label="edge", sid1=ol("a", o1), sid2=ol("b", o2))
-        out = eval_function(repo, f_rk, [se, snum, st1, st2], hooks=hooks)
+        if len(f_rk.params) == 4:
+            out = eval_function(repo, f_rk, [se, snum, st1, st2], hooks=hooks)
+        elif len(f_rk.params) == 2:
+            # the interval types are computed inside: give coordinates that
+            # have the wanted types on a segment of length 7
+            coords = {"pfx": (0, 3), "sfx": (3, last7), "whole": (0, last7),
+                      "internal": (3, 5)}
+            se.attrs.update(beg1=coords[st1][0], end1=coords[st1][1],
+                            beg2=coords[st2][0], end2=coords[st2][1])
+            out = eval_function(repo, f_rk, [se, snum], hooks=hooks)
+        else:
+            raise AnalysisError("anchor vanished: _refkey_for_s(snum[, st1, "
+                                "st2]) has parameters %r" % (f_rk.params,))
         ref = spec.ref_refkey_gfa2(snum, st1, st2, o1, o2)
         cell = "snum=%d,st1=%s,st2=%s,orient=%s%s" % (snum, st1, st2, o1, o2)
         got = out[1] if out[0] == "return" else "!" + str(out[1])
